@@ -3,6 +3,7 @@ import SignaloModel.Proofs.OwnedMedian
 import SignaloModel.Proofs.OwnedDeque
 import SignaloModel.Proofs.OwnedRuns
 import SignaloModel.Proofs.DequeSuffix
+import SignaloModel.Proofs.DequeExact
 /-!
 # C19 — Windowed filters drop every owned sample exactly once
 
@@ -11,6 +12,7 @@ The property theorems for C19: `#check` prints each statement, `#print axioms` i
 -/
 open SignaloModel
 
+#check @SignaloModel.Deque.taps_exact_run
 #check @SignaloModel.Deque.taps_suffixMax_run
 #check @Registry.owned_mean_registry
 #check @Registry.owned_delay_registry
@@ -28,6 +30,7 @@ open SignaloModel
 #check @Registry.owned_median_registry
 #check @Registry.run_append
 
+#print axioms SignaloModel.Deque.taps_exact_run
 #print axioms SignaloModel.Deque.taps_suffixMax_run
 #print axioms Registry.owned_mean_registry
 #print axioms Registry.owned_delay_registry
